@@ -546,6 +546,7 @@ public:
             for (auto* C : O->clauses())
                 if (C && !C->isImplicit()) Cl.push_back(ompClause(C));
             j.str("k", "Omp").str("dir", llvm::omp::getOpenMPDirectiveName(O->getDirectiveKind())).kv("clauses", arr(Cl));
+            if (auto* CR = dyn_cast<OMPCriticalDirective>(O)) j.str("name", CR->getDirectiveName().getAsString());
             if (O->hasAssociatedStmt()) {
                 const Stmt* A = O->getAssociatedStmt();
                 while (auto* CS = dyn_cast_or_null<CapturedStmt>(A)) A = CS->getCapturedStmt();
